@@ -2174,3 +2174,147 @@ func runSysFaultProc(c *fw.Case, prop string) {
 		c.Outcome("ok")
 	}
 }
+
+// ---- C19 at process level: the commands that decode files survive faulted input ----
+
+// runDesyncLimited runs the binary with its address space capped (a decoder that believes a bogus size field dies with
+// "fatal error: out of memory" instead of quietly reserving terabytes).
+func runDesyncLimited(limit time.Duration, args ...string) (exit int, stderr []byte, err error) {
+	ctx, cancel := context.WithTimeout(context.Background(), limit)
+	defer cancel()
+	sh := append([]string{"-c", `ulimit -v 4194304; exec "$0" "$@"`, desyncBin()}, args...)
+	cmd := exec.CommandContext(ctx, "/bin/sh", sh...)
+	var e bytes.Buffer
+	cmd.Stdout, cmd.Stderr = io.Discard, &e
+	cmd.Env = append(os.Environ(), "HOME=/nonexistent-verif-home")
+	cmd.WaitDelay = 5 * time.Second
+	rerr := cmd.Run()
+	if ctx.Err() != nil {
+		return -1, e.Bytes(), errProcTimeout
+	}
+	if ee, ok := rerr.(*exec.ExitError); ok {
+		return ee.ExitCode(), e.Bytes(), nil
+	}
+	return 0, e.Bytes(), rerr
+}
+
+func runC19Proc(c *fw.Case) {
+	c.Probe("process-level-case (real desync binary)")
+	dir := c.Dir()
+	r := c.Rand("fault.seed")
+	var valid []byte
+	var cmds [][]string
+	file := filepath.Join(dir, "input")
+	empty := filepath.Join(dir, "empty.store")
+	os.MkdirAll(empty, 0755)
+	isIndex := c.Bool("c19.index")
+	if isIndex {
+		sz := genSizes(c)
+		idx := desync.Index{Index: desync.FormatIndex{FeatureFlags: desync.CaFormatExcludeNoDump | desync.CaFormatSHA512256, ChunkSizeMin: sz.min, ChunkSizeAvg: sz.avg, ChunkSizeMax: sz.max}}
+		var pos uint64
+		for i, n := 0, c.Draw(40, "chunks"); i < n; i++ {
+			var id desync.ChunkID
+			for j := range id {
+				id[j] = byte(r.IntN(256))
+			}
+			s := uint64(1 + r.IntN(int(sz.max)))
+			idx.Chunks = append(idx.Chunks, desync.IndexChunk{ID: id, Start: pos, Size: s})
+			pos += s
+		}
+		var buf bytes.Buffer
+		idx.WriteTo(&buf)
+		valid = buf.Bytes()
+		blobFile := filepath.Join(dir, "blob")
+		os.WriteFile(blobFile, []byte("not the blob"), 0644)
+		// only the commands that just parse: extract, cat and verify-index go on to allocate a buffer of the chunk size
+		// maximum the header declares, which is beyond "parsing" (noted in DESIGN.md, no listed property covers it)
+		_ = blobFile
+		cmds = [][]string{{"list-chunks", file}, {"info", file}}
+	} else {
+		src := filepath.Join(dir, "src")
+		if _, err := genTree(c, src, 10); err != nil {
+			c.HarnessError("%v", err)
+			return
+		}
+		b, err := tarTree(src)
+		if err != nil {
+			c.HarnessError("%v", err)
+			return
+		}
+		valid = b
+		cmds = [][]string{{"mtree", file}, {"untar", "--no-same-owner", file, filepath.Join(dir, "unpacked")}}
+	}
+	var offs []int
+	for _, o := range elementOffsets(valid) {
+		if o+16 <= len(valid) {
+			offs = append(offs, o)
+		}
+	}
+	c.Class(fmt.Sprintf("cli decoders index=%v len<=%d", isIndex, (len(valid)+1023)/1024*1024))
+	c.NonTrivial()
+	for i := 0; i < 8; i++ {
+		b := append([]byte(nil), valid...)
+		what := ""
+		switch k := c.Draw(4, "fault.kind"); {
+		case k == 0 && len(b) > 0:
+			l := c.Draw(len(b), "cut.at")
+			b, what = b[:l], fmt.Sprintf("truncated to %d of %d bytes", l, len(valid))
+			c.Fault("truncation")
+		case k == 1 && len(offs) > 0:
+			o := offs[c.Draw(len(offs), "size.at")]
+			orig := binary.LittleEndian.Uint64(valid[o:])
+			vals := []uint64{0, 1, 15, 16, 17, 24, 40, 47, 48, 64, orig - 1, orig + 1, orig + 24, 1 << 20, 1 << 31, 1 << 36, 1 << 50, 1 << 63, ^uint64(0), ^uint64(0) - 15}
+			v := vals[c.Draw(len(vals), "size.val")]
+			binary.LittleEndian.PutUint64(b[o:], v)
+			what = fmt.Sprintf("size field at offset %d set to %d (was %d)", o, v, orig)
+			c.Fault("size-field")
+		case k == 2 && len(offs) > 0:
+			o := offs[c.Draw(len(offs), "type.at")]
+			types := []uint64{desync.CaFormatEntry, desync.CaFormatXAttr, desync.CaFormatFilename, desync.CaFormatSymlink, desync.CaFormatDevice, desync.CaFormatPayload, desync.CaFormatGoodbye, desync.CaFormatIndex, desync.CaFormatTable, 0x1234}
+			binary.LittleEndian.PutUint64(b[o+8:], types[c.Draw(len(types), "type.val")])
+			what = fmt.Sprintf("type field at offset %d replaced", o)
+			c.Fault("type-field")
+		default:
+			if len(b) == 0 {
+				continue
+			}
+			p := c.Draw(len(b), "flip.at")
+			b[p] ^= 1 << uint(c.Draw(8, "flip.bit"))
+			what = fmt.Sprintf("bit flipped in byte %d", p)
+			c.Fault("bit-flip")
+		}
+		if err := os.WriteFile(file, b, 0644); err != nil {
+			c.HarnessError("%v", err)
+			return
+		}
+		for _, cmd := range cmds {
+			os.RemoveAll(filepath.Join(dir, "unpacked"))
+			os.MkdirAll(filepath.Join(dir, "unpacked"), 0755)
+			exit, stderr, err := runDesyncLimited(60*time.Second, cmd...)
+			if errors.Is(err, errProcTimeout) {
+				c.Probe("procsim-timeout-case-dropped")
+				continue
+			}
+			if err != nil {
+				c.HarnessError("%v", err)
+				return
+			}
+			c.SubEval(1)
+			se := string(stderr)
+			if exit == 2 || strings.Contains(se, "panic:") || strings.Contains(se, "fatal error:") || strings.Contains(se, "goroutine 1 [") {
+				first := se
+				if i := strings.Index(se, "panic:"); i >= 0 {
+					first = se[i:]
+				} else if i := strings.Index(se, "fatal error:"); i >= 0 {
+					first = se[i:]
+				}
+				if len(first) > 200 {
+					first = first[:200]
+				}
+				c.Violate("panic", "desync "+cmd[0], "%s: `desync %s` crashed (exit %d): %s", what, cmd[0], exit, strings.ReplaceAll(first, "\n", " | "))
+				return
+			}
+		}
+	}
+	c.Outcome("ok")
+}
